@@ -48,6 +48,7 @@ func init() {
 		"runtime.Gosched":            stubYield,
 		"time.Sleep":                 stubYield,
 		"time.Now":                   stubTimeNow,
+		"time.Unix":                  stubTimeUnix,
 		"flag.Bool":                  stubFlagVal,
 		"flag.Int":                   stubFlagVal,
 		"flag.String":                stubFlagVal,
@@ -190,7 +191,11 @@ func stubErrorsIs(it *Interp, fr *frame, fn *ssa.Function, args []Value, site ss
 			}
 		}
 		// Unwrap() error
-		m := it.sh.prog.LookupMethod(err.t, nil, "Unwrap")
+		sel := it.sh.prog.MethodSets.MethodSet(err.t).Lookup(nil, "Unwrap")
+		if sel == nil {
+			return it.tt.fls
+		}
+		m := it.sh.prog.MethodValue(sel)
 		if m == nil || m.Signature.Results().Len() != 1 || !types.Identical(m.Signature.Results().At(0).Type(), types.Universe.Lookup("error").Type()) {
 			return it.tt.fls
 		}
@@ -342,4 +347,28 @@ func ptrKey(p *PtrV) string {
 	var sb strings.Builder
 	keyString(p, &sb)
 	return sb.String()
+}
+
+// time.Unix without branching: normalisation by term arithmetic.
+func stubTimeUnix(it *Interp, fr *frame, fn *ssa.Function, args []Value, site ssa.Instruction) Value {
+	tt := it.tt
+	sec, nsec := args[0].(*Term), args[1].(*Term)
+	e9 := tt.Const(64, 1000000000)
+	if !(nsec.hi < 1000000000) {
+		n := tt.SDiv(nsec, e9)
+		r := tt.Sub(nsec, tt.Mul(n, e9))
+		neg := tt.Slt(r, tt.Const(64, 0))
+		sec = tt.Sub(tt.Add(sec, n), tt.Ite(neg, tt.Const(64, 1), tt.Const(64, 0)))
+		nsec = tt.Add(r, tt.Ite(neg, e9, tt.Const(64, 0)))
+	}
+	var loc Value = &PtrV{}
+	if p := it.sh.prog.ImportedPackage("time"); p != nil {
+		if g := p.Var("Local"); g != nil {
+			if o := it.sh.globals[g]; o != nil {
+				loc = it.rootR(o)
+			}
+		}
+	}
+	const unixToInternal = 62135596800
+	return &StructV{f: []Value{nsec, tt.Add(sec, tt.Const(64, unixToInternal)), loc}}
 }
